@@ -27,6 +27,8 @@ SPECS = {
     "C10": [("c10_send_side_limit", "c10m")],
     "C11": [("c11_static_table_lookups", "c11m")],
     "C12": [("c12_message_gates", "c12")],
+    "C13": [("c13_setup_sequence", "c13m")],
+    "C14": [("c13_setup_sequence", "c13m")],
     "C17": [("c17_quinn_adapter", "c17")],
     "C19": [("c19_uni_stream_header", "c19m"), ("c04_uni_stream_classification", "c04b")],
 }
